@@ -30,8 +30,7 @@
 //! of the case:
 //! `empty-domain-view-panic` (`SparseSet::min/max` debug assertion reached with an empty-domain
 //! variable: `int(hi,lo)`, `intset([])`, reversed float bounds + float->int conversion),
-//! `lin-reif-length-unchecked`, `memory-limit-dummy-varid-panic` (the budget
-//! rejects the first variable, the dummy `VarId(0)` is dereferenced), `i32-overflow`,
+//! `lin-reif-length-unchecked`, `i32-overflow`,
 //! `float-split-no-progress` (step below ULP: the search descends for ever, limits unchecked),
 //! `huge-domain-allocation` (a sparse set of > 1.5 GB is allocated), `accepted-<invalid input>`,
 //! `alldiff-float-counted` (`mal.v alldiff` rows: the validation counts float variables among the
@@ -1309,9 +1308,8 @@ pub fn tag_panic(case: &Case, file: &str, msg: &str) -> String {
     if kind == "index" && file.ends_with("props/linear.rs") && has_reif_lin_mismatch(case) {
         return "lin-reif-length-unchecked".into();
     }
-    if kind == "index" && (file.ends_with("variables/views.rs") || file.ends_with("variables/core.rs")) && first_var_rejected(case) {
-        return "memory-limit-dummy-varid-panic".into();
-    }
+    // (`memory-limit-dummy-varid-panic` — the dummy `VarId(0)` of a model whose first variable was
+    // rejected by the budget — is repaired by 39d3272: the matcher is gone, a recurrence is unlisted)
     // the files in which the unchanged tree overflows i32 on extreme arguments (bounds arithmetic of
     // domains, views, `Val`, the linear propagators and the posting helpers); an overflow anywhere
     // else is not the recorded finding
@@ -1886,7 +1884,7 @@ fn fixed_cases() -> Vec<Case> {
         Case { cfg: cfg(Some(150), None, None), steps: vec![S::Float(1e10, 10000000001.0), S::Float(0.0, 1.0)], call: Call::Solve },
         // extreme: every split clones the space, memory grows until the allocator gives up
         Case { cfg: cfg(Some(150), Some(64), None), steps: vec![S::Float(-1e308, 1e300)], call: Call::Solve },
-        // in range: the budget rejects the first variable, the dummy VarId(0) is then dereferenced
+        // in range: the budget rejects the first variable (the dummy VarId(0) was dereferenced before fix 39d3272)
         Case { cfg: cfg(Some(150), Some(1), None), steps: vec![S::Int(-1_000_000, 1_000_000), S::Bin { op: 0, x: A::V(0), y: A::K(1), route: 0 }], call: Call::Solve },
         // in range: empty value set + equality between variables
         Case { cfg: cfg(Some(150), None, None), steps: vec![S::IntSet(vec![]), S::Int(0, 3), S::Fluent { l: E::V(0), op: 0, r: E::V(1), wrap: 0, route: 0 }], call: Call::Solve },
@@ -2395,7 +2393,6 @@ fn v_tag(v: &V, res: &str) -> &'static str {
     match v {
         V::BoundsEq { lo, hi } | V::BoundsUse { lo, hi } if lo > hi && panic && res.contains("sparse_set.rs") && res.ends_with("assert") => "empty-domain-view-panic",
         V::LinLen { nc, nv, reif: true, .. } if nc != nv => "lin-reif-length-unchecked",
-        V::Mem { first: true, post: true, .. } if panic && res.contains("views.rs") && res.ends_with("index") => "memory-limit-dummy-varid-panic",
         _ => "-",
     }
 }
